@@ -3,6 +3,7 @@ package main
 // Evaluation of contract expressions in a symbolic state; contract application at call sites; loop invariants.
 
 import (
+	"strconv"
 	"sync"
 	"fmt"
 	"go/types"
@@ -74,6 +75,15 @@ func (c *CEnv) toTerm(v cv) T {
 func (c *CEnv) eval(e *Expr) cv {
 	switch e.Op {
 	case "lit":
+		if strings.Contains(e.Val, ".") {
+			// a decimal literal denotes the float64 nearest to it, as in the Go source (0.05 is 3602879701896397/2^56)
+			f, err := strconv.ParseFloat(e.Val, 64)
+			if err != nil {
+				c.fail("bad real literal %s", e.Val)
+			}
+			r := new(big.Rat).SetFloat64(f)
+			return cv{V: T{S: fmt.Sprintf("(/ %s.0 %s.0)", r.Num().String(), r.Denom().String()), So: SReal}}
+		}
 		n, _ := new(big.Int).SetString(e.Val, 10)
 		return cv{V: BigLit(n)}
 	case "str":
@@ -245,8 +255,12 @@ func (c *CEnv) ident(name string) cv {
 	}
 	if strings.HasPrefix(name, "$") {
 		// $callee: the value returned by the call of that function in the innermost frame that has one
-		for i := len(c.frames) - 1; i >= 0; i-- {
-			for v, val := range c.frames[i].env {
+		frames := c.frames
+		if len(frames) == 0 && c.st != nil {
+			frames = c.st.Frames // postconditions: the root frame still holds the call results
+		}
+		for i := len(frames) - 1; i >= 0; i-- {
+			for v, val := range frames[i].env {
 				if call, ok := v.(*ssa.Call); ok {
 					if f := call.Common().StaticCallee(); f != nil && f.Name() == name[1:] {
 						return cv{V: val, T: call.Type()}
@@ -254,7 +268,7 @@ func (c *CEnv) ident(name string) cv {
 				}
 			}
 		}
-		c.fail("no call result for %s", name)
+		panic(noCallResult{name})
 	}
 	// locals by name in frames (innermost first)
 	for i := len(c.frames) - 1; i >= 0; i-- {
@@ -1298,6 +1312,11 @@ func (x *Exec) envFor(st *State, old *State, fr *Frame, result Val) *CEnv {
 func (x *Exec) evalClause(c *CEnv, cl *Clause) (t T) {
 	defer func() {
 		if r := recover(); r != nil {
+			if _, ok := r.(noCallResult); ok {
+				// the clause speaks about the result of a call that did not happen on this path: it holds vacuously
+				t = TTrue
+				return
+			}
 			if ee, ok := r.(execError); ok {
 				panic(execError{fmt.Sprintf("%s [%s: %s]", ee.msg, cl.Line, cl.Src)})
 			}
@@ -1310,6 +1329,9 @@ func (x *Exec) evalClause(c *CEnv, cl *Clause) (t T) {
 	}
 	return t
 }
+
+// noCallResult: a clause refers to `$callee` on a path where that callee was not called.
+type noCallResult struct{ name string }
 
 func (x *Exec) applyLets(c *CEnv, spec *FuncSpec) {
 	c.spec = spec // lets are macros: evaluated where they are used (so old(h) evaluates h in the old state)
